@@ -405,7 +405,10 @@ def proxy_proof_gate(
         # this catches header injection without a separate multi-value API.
         raw = req.get_header(PROOF_HEADER)
         try:
-            if not raw:
+            # Absent and empty are different rows of the decision table (spec
+            # section 6): no header is step 1 (no_proof); a header whose value
+            # is empty is step 2 (malformed), which verify_proof reports.
+            if raw is None:
                 raise ProofError("no_proof", "header absent")
             if "," in raw:
                 raise ProofError("malformed", "multiple proof headers")
